@@ -176,7 +176,8 @@ def run_check(args):
     tier = 'thorough' if args.tier == 'thorough' else 'quick'
     camps = campaigns.for_property(prop)
     if args.campaign:
-        camps = [c for c in camps if c['name'] == args.campaign]
+        camps = [c for c in campaigns.for_property(prop, True)
+                 if c['name'] == args.campaign]
     if not camps:
         print('no campaign for %s' % prop)
         return 2
